@@ -115,10 +115,10 @@ type subscriber struct {
 	lastIndex uint64 // index of the last delivered event (what a client would resume from)
 	subMax    uint64 // highest index delivered by the CURRENT subscription (monotonicity is per subscription:
 	// a resubscribe may be served from a cached snapshot that is older than what an earlier subscription delivered)
-	anyIndex  []uint64
+	anyIndex []uint64
 	// outstanding Next call
-	pending chan nextResult
-	closedErr error
+	pending            chan nextResult
+	closedErr          error
 	subscribedAtCommit int
 	aclTouchedSince    bool
 }
@@ -131,12 +131,12 @@ type nextResult struct {
 func (s *subscriber) key() string { return s.topic + "/" + s.svc }
 
 type c11World struct {
-	c      *Cluster
-	pub    *stream.EventPublisher
-	r      *simkit.Run
-	subs   map[int64]*subscriber
-	truth  map[string]map[uint64]string // subject key -> commit index -> canonical result
-	commits []uint64
+	c           *Cluster
+	pub         *stream.EventPublisher
+	r           *simkit.Run
+	subs        map[int64]*subscriber
+	truth       map[string]map[uint64]string // subject key -> commit index -> canonical result
+	commits     []uint64
 	tokenWrites map[string]int // secret -> number of committed token writes (published or not)
 	restoredAt  uint64
 }
